@@ -48,23 +48,25 @@ def bsFinal (idx : List Int) (bs be : Int) (a z : Nat) : Nat × Nat :=
 termination_by z - a
 decreasing_by all_goals omega
 
-/-- one pass of the source's search loop, on in-range naturals -/
-def bsStep (idx : List Int) (bs be : Int) (a z : Nat) (o : Option Int) : Ctl (Int × Int × Option Int) (Option OverlapResult) :=
+/-- one pass of the source's search loop, on in-range naturals.  `mk a z ovr` packs the three variables the loop carries
+    into the loop state (the translator emits them sorted by name — `(a, ovr, z)`; nothing here depends on the order). -/
+def bsStep {σ : Type} (mk : Int → Int → Option Int → σ) (idx : List Int) (bs be : Int) (a z : Nat) (o : Option Int) :
+    Ctl σ (Option OverlapResult) :=
   let m := a + (z - a) / 2
-  if idxAt idx m < bs then .next (((m + 1 : Nat) : Int), (z : Int), o)
-  else if rowStart idx m > be then .next ((a : Int), (m : Int), o)
-  else .brk ((a : Int), (z : Int), some (m : Int))
+  if idxAt idx m < bs then .next (mk ((m + 1 : Nat) : Int) (z : Int) o)
+  else if rowStart idx m > be then .next (mk (a : Int) (m : Int) o)
+  else .brk (mk (a : Int) (z : Int) (some (m : Int)))
 
-theorem whileLoop_bsearch (idx : List Int) (bs be : Int)
-    (cond : Int × Int × Option Int → R Bool)
-    (body : Int × Int × Option Int → R (Ctl (Int × Int × Option Int) (Option OverlapResult)))
-    (hcond : ∀ (a z : Int) o, cond (a, z, o) = .ok (decide (a < z)))
-    (hbody : ∀ (a z : Nat) o, a < z → z ≤ idx.length → body ((a : Int), (z : Int), o) = .ok (bsStep idx bs be a z o))
+theorem whileLoop_bsearch {σ : Type} (mk : Int → Int → Option Int → σ) (idx : List Int) (bs be : Int)
+    (cond : σ → R Bool)
+    (body : σ → R (Ctl σ (Option OverlapResult)))
+    (hcond : ∀ (a z : Int) o, cond (mk a z o) = .ok (decide (a < z)))
+    (hbody : ∀ (a z : Nat) o, a < z → z ≤ idx.length → body (mk (a : Int) (z : Int) o) = .ok (bsStep mk idx bs be a z o))
     (fuel a z : Nat) (hz : z ≤ idx.length) (hfuel : z - a < fuel)
-    (s : Int × Int × Option Int) (hs : s = ((a : Int), (z : Int), (none : Option Int))) :
+    (s : σ) (hs : s = mk (a : Int) (z : Int) (none : Option Int)) :
     whileLoop fuel s cond body =
-      .ok (.fell (((bsFinal idx bs be a z).1 : Int), ((bsFinal idx bs be a z).2 : Int),
-                  (bsearch idx bs be a z).map Int.ofNat)) := by
+      .ok (.fell (mk ((bsFinal idx bs be a z).1 : Int) ((bsFinal idx bs be a z).2 : Int)
+                  ((bsearch idx bs be a z).map Int.ofNat))) := by
   subst hs
   induction fuel generalizing a z with
   | zero => omega
